@@ -604,6 +604,11 @@ func (c *e2eCtx) crashPoints(s *scenario, r *rand.Rand, pre string, cmd string, 
 		if _, err := os.Stat(filepath.Join(d, s.cfg.PkgPath, "goat_generated.go")); err == nil {
 			c.violate("C15", fmt.Sprintf("after %s killed at boundary %d (%s) + clean, the generated file remains", cmd, k, what), rp(nil))
 		}
+		for _, p := range sortedKeys(s.newTree) {
+			if !strings.HasSuffix(p, ".go") && tree[p] != s.newTree[p] {
+				c.violate("C15", fmt.Sprintf("after %s killed at boundary %d (%s) + clean, %s (not a Go file) is modified or gone", cmd, k, what, p), rp(nil))
+			}
+		}
 		// every artefact: no file of any kind and no directory beyond the new revision's (+ goat.yaml)
 		if lf, ld := proj.Leftovers(d, s.newTree, s.cfg.PkgPath, "goat.yaml"); len(lf)+len(ld) > 0 {
 			c.violate("C15", fmt.Sprintf("after %s killed at boundary %d (%s) + clean, the tree holds files %v and directories %v that the project did not have before instrumentation",
